@@ -467,6 +467,16 @@ class Engine:
         items = tuple(self.ev(e) for e in n.elts)
         return SV(Ty("tuple", [i.ty for i in items]), items)
 
+    def ev_Dict(self, n):
+        """{} : a new empty dict (no key of any modelled key sort)"""
+        if n.keys:
+            raise Unsupported("non-empty dict display")
+        r = self.new_ref("dict")
+        for kty in (T.INT, T.STR, T.ANY):
+            self.hwrite(f"dict.has.{T.sort_name(kty)}", r, self.B.name_array(z3.K(T.sort_of(kty), z3.BoolVal(False))),
+                        z3.ArraySort(T.sort_of(kty), z3.BoolSort()))
+        return SV(Ty("dict", [T.ANY, T.ANY]), r)
+
     def ev_JoinedStr(self, n):
         parts = []
         for v in n.values:
@@ -963,6 +973,13 @@ class Engine:
                 self.emit("call", f"{short}.no-{exc}", z3.Not(c), line)
                 if not self.guards:
                     self.assume(z3.Not(c))
+        # the callee may have allocated: the allocation frontier moves (by an unknown amount) BEFORE the havoc of what it
+        # modifies and before the result is introduced -- otherwise "the result is an allocated reference" (caller's frontier) contradicts the callee's
+        # `fresh(result)` (at or above the frontier at the call) and every path after the call is vacuous
+        if not self.spec_mode:
+            na = fresh("alloc_after_call", z3.IntSort())
+            self.assume(na >= self.st.alloc)
+            self.st.alloc = na
         # havoc
         for m in callee.modifies:
             self.havoc_location(m, benv, line, callee)
@@ -1936,6 +1953,9 @@ class Engine:
             except Exception:
                 pass
         self.run_ghost(c.ghost_end, st)
+        # vacuity guard per exit path: False must NOT be derivable from what is known on this path (a contradictory
+        # context -- e.g. from an inconsistent callee contract or heap model -- would make every postcondition pass)
+        self.emit("reach", "exit", z3.BoolVal(False), line, st)
         # in a postcondition a parameter name means the value passed in (rebinding is local)
         pbind = {n: v for n, v in self.inputs.items()}
         for i, e in enumerate(c.ensures):
